@@ -10,7 +10,7 @@ STDEV_INV = {
     "data-absent-before-input": ("implies(j < s, Rd(c, j, f'{N}_data.mean') is None and Rd(c, j, f'{N}_data.variance') is None)", ["C05"]),
     "data-shape": ("implies(j >= s, isnum(Rd(c, j, f'{N}_data.mean')) and isnum(Rd(c, j, f'{N}_data.variance')))", ["C05", "C09"]),
     "data-mean": ("implies(j >= s, isnum(Rd(c, j, f'{N}_data.mean')) and num(Rd(c, j, f'{N}_data.mean')) * period"
-                  " == Sigma(Max(s, j - period + 1), j + 1, lambda t: num(Rd(c, t, X))))", ["C05"], {"defer": True}),
+                  " == Sigma(Max(s, j - period + 1), j + 1, lambda t: num(Rd(c, t, X))))", ["C05"]),
     "data-variance": ("implies(j >= s, isnum(Rd(c, j, f'{N}_data.variance')) and num(Rd(c, j, f'{N}_data.variance')) * period"
                       " == Sigma(Max(s, j - period + 1), j + 1, lambda t: num(Rd(c, t, X)) * num(Rd(c, t, X)))"
                       " - period * num(Rd(c, j, f'{N}_data.mean')) * num(Rd(c, j, f'{N}_data.mean')))", ["C05"], {"defer": True}),
